@@ -185,9 +185,10 @@ func c10Roundtrip(a []string) string {
 	}
 	n, err := back.Unmarshal(w)
 	if err != nil {
-		return "ok " + hx(w) + " decode-err"
+		return "ok " + hxOwn(w) + " decode-err"
 	}
-	return fmt.Sprintf("ok %s %d %s", hx(w), n, strings.Join(c10FromLib(&back).tokens(), " "))
+	toks := strings.Join(c10FromLib(&back).tokens(), " ")
+	return fmt.Sprintf("ok %s %d %s", hxOwn(w), n, toks)
 }
 
 func c10Unmarshal(a []string) string {
